@@ -29,7 +29,11 @@ LayoutCase == [kind |-> "layout", id |-> 0, elem |-> Elem, mohd_fields |-> MohdF
 RootP(kind, v, to, cnt, sky, nm, xf, pvpat, vblpat) ==
     [kind |-> kind, id |-> 0, ver |-> v, to |-> to, ntex |-> cnt.ntex, nmat |-> cnt.nmat, ngrp |-> cnt.ngrp,
      nport |-> cnt.nport, npv |-> 4, pvpat |-> pvpat, npref |-> cnt.npref, nvbl |-> cnt.nvbl, vbl |-> 3, vblpat |-> vblpat,
-     nlight |-> cnt.nlight, ndd |-> cnt.ndd, nds |-> cnt.nds, sky |-> sky, names |-> nm, xf |-> xf, prefs |-> << >>]
+     nlight |-> cnt.nlight, ndd |-> cnt.ndd, nds |-> cnt.nds, sky |-> sky, names |-> nm, xf |-> xf, prefs |-> << >>, bits |-> "rand"]
+\* bits: how every flag / bit-field of the object (header, material, group-info, group-header and liquid flags) is filled:
+\* "rand" random defined bits, "ones" every defined bit set, "single" exactly one defined bit (rotating with seed and position)
+BitCls == <<"rand", "ones", "single">>
+WithBits(r, bc) == [r EXCEPT !.bits = bc]
 \* prefs: a structurally valid portal graph from WmoLayout (rows [portal, group, side]) instead of arbitrary references
 RingRows(np, ng) == [j \in 1..(2 * np) |-> <<PortalRing(np, ng)[j].portal, PortalRing(np, ng)[j].group, PortalRing(np, ng)[j].side>>]
 WithRing(r) == [r EXCEPT !.prefs = RingRows(r.nport, r.ngrp), !.npref = 2 * r.nport]
@@ -56,6 +60,7 @@ RootSlices ==
   \cup {WithRing(Root("root", v, 0, AllAt(3), 1, "prefix", 0)) : v \in Versions}
   \cup {RootP("root", v, 0, AllAt(c), 1, "plain", 0, pat, 7 - pat) : v \in {VClassic, VWotlk, VMop}, pat \in 0..7, c \in {1, 3}}
   \cup {Root("root", v, 0, AllAt(1), s, "prefix", 1) : v \in Versions, s \in {0, 1}}
+  \cup {WithBits(Root("root", v, 0, AllAt(3), 1, "plain", 0), BitCls[q]) : v \in Versions, q \in {2, 3}}
   \cup (IF Thorough THEN {Root("root", v, 0, TwoAt(d1, d2, c), 0, "prefix", 0) : v \in Versions, d1 \in DimSet, d2 \in DimSet, c \in {1, 3}}
         ELSE {Root("root", VWotlk, 0, TwoAt(d1, d2, 3), 0, "plain", 0) : d1 \in {"nmat", "ntex", "ngrp"}, d2 \in DimSet})
 
@@ -80,12 +85,14 @@ BspRows(t) == [j \in 1..Len(BspCatalog[t]) |->
                    BspCatalog[t][j].nfaces, BspCatalog[t][j].fstart>>]
 GroupB(kind, v, to, a, b, c, d, e, f, g, h, i, xf, bsp) ==
     [kind |-> kind, id |-> 0, ver |-> v, to |-> to, nvert |-> a, nidx |-> b, nnorm |-> c, ntc |-> d, ncol |-> e,
-     nbatch |-> f, nbsp |-> IF bsp = << >> THEN g ELSE Len(bsp), liq |-> h, lw |-> 3, lh |-> 4, ndref |-> i, xf |-> xf, bsp |-> bsp]
+     nbatch |-> f, nbsp |-> IF bsp = << >> THEN g ELSE Len(bsp), liq |-> h, lw |-> 3, lh |-> 4, ndref |-> i, xf |-> xf, bsp |-> bsp,
+     bits |-> "rand"]
 Group(kind, v, to, a, b, c, d, e, f, g, h, i, xf) == GroupB(kind, v, to, a, b, c, d, e, f, g, h, i, xf, << >>)
 GroupSlices ==
        {Group("group", v, 0, 0, 0, 0, 0, -1, 0, -1, 0, -1, 0) : v \in Versions}
   \cup {Group("group", v, 0, 3, 9, 3, 3, 3, 3, 4, 2, 3, xf) : v \in Versions, xf \in {0, 1}}
   \cup {Group("group", v, 0, 1, 3, 1, 1, 1, 1, 1, 1, 1, 0) : v \in Versions}
+  \cup {WithBits(Group("group", v, 0, 3, 9, 3, 3, 3, 3, 4, 2, 3, 0), BitCls[q]) : v \in Versions, q \in {2, 3}}
   \cup {Group("group", v, 0, a, 0, 0, 0, -1, 0, -1, 0, -1, 0) : v \in {VClassic, VMop}, a \in {1, 3}}
   \cup {Group("group", v, 0, 0, b, 0, 0, -1, 0, -1, 0, -1, 0) : v \in {VClassic, VMop}, b \in {3, 9}}
   \cup {Group("group", v, 0, 3, 0, 0, 0, e, 0, -1, 0, -1, 0) : v \in {VClassic, VMop}, e \in {0, 3}}
@@ -110,12 +117,16 @@ RootConv ==
        {Root("rootconv", a, b, AllAt(c), 1, "plain", 0) : a \in Versions, b \in Versions, c \in {1, 3}}
   \cup {Root("rootconv", a, b, AllAt(3), 0, "prefix", 1) : a \in Versions, b \in Versions}
   \cup {RootP("rootconv", a, b, AllAt(1), 1, "rprefix", 0, 0, 0) : a \in Versions, b \in Versions}
+  \* every pair with every flag field all-ones / single-bit
+  \cup {WithBits(Root("rootconv", a, b, AllAt(3), 1, "plain", 0), BitCls[q]) : a \in Versions, b \in Versions, q \in {2, 3}}
 GroupConv ==
        {Group("groupconv", a, b, 3, 9, 3, 3, 3, 3, 4, 2, 3, 0) : a \in Versions, b \in Versions}
   \cup {Group("groupconv", a, b, 1, 3, 0, 0, -1, 1, -1, 1, -1, 1) : a \in Versions, b \in Versions}
+  \* every pair, every optional sub-structure populated (liquid with and without tile flags), flag fields all-ones / single-bit
+  \cup {WithBits(Group("groupconv", a, b, 3, 9, 3, 3, 3, 3, 4, h, 3, 0), BitCls[q]) : a \in Versions, b \in Versions, h \in {1, 2}, q \in {2, 3}}
 RandConv(j) ==
     LET r == RandRoot(j + 100000) q == Stream(Start(3, j), 3) IN
-    [r EXCEPT !.kind = "rootconv", !.to = 1 + (q[1] % 5)]
+    [r EXCEPT !.kind = "rootconv", !.to = 1 + (q[1] % 5), !.bits = BitCls[1 + (q[2] % 3)]]
 NRandConv == IF Thorough THEN 2000 ELSE 30
 
 Numbered(seq) == [j \in 1..Len(seq) |-> [seq[j] EXCEPT !.id = j]]
